@@ -207,6 +207,7 @@ def ensure_e1(config="std", tier="quick"):
                     for sp, v in res["inv"].items()},
             "events": events,
             "roots": res["roots"],
+            "summaries": res.get("summaries", {}),
             "stable": res["stable"],
             "never_constructed": res["never_constructed"],
             "errors": [(r["root"], r["err"]) for r in res["results"] if r["err"]],
